@@ -256,7 +256,10 @@ class _ReusablePoolExecutor(ProcessPoolExecutor):
 
             self._adjust_process_count()
             processes = list(self._processes.values())
-            while not all(p.is_alive() for p in processes):
+            while (
+                not all(p.is_alive() for p in processes)
+                and not self._flags.broken
+            ):
                 time.sleep(1e-3)
 
     def _wait_job_completion(self):
